@@ -37,6 +37,8 @@ Maps == [ any3 |-> VM(<<K(kA), K(kB), K(kC)>>, <<VI(1), VI(2), VI(3)>>),
           \* pointer keys: three pointers to values that print alike; pointers into one array (its layout reversed in the "rev" runs)
           ptrkeys |-> VMg(<<VI(1), VI(1), VI(1)>>, <<VS(<<120>>), VS(<<121>>), VS(<<122>>)>>, "mptr"),
           ptrints |-> VMg(<<VI(3), VI(1), VI(2)>>, <<VS(<<120>>), VS(<<121>>), VS(<<122>>)>>, "mpint"),
+          \* int64 keys above 2^53 that one float64 cannot tell apart, all mapped to the same value (a set of ids)
+          bigeq |-> VMg(<<VI(3), VI(1), VI(2), VI(4)>>, <<VS(<<116>>), VS(<<116>>), VS(<<116>>), VS(<<116>>)>>, "mi64big"),
           nankeys |-> VMg(<<VI(3), VI(1), VI(2)>>, <<VS(<<120>>), VS(<<121>>), VS(<<122>>)>>, "mfsnan"),
           nest |-> VM(<<K(<<112>>), K(<<113>>)>>, <<VM(<<K(kA), K(kB)>>, <<VI(1), VI(2)>>), VM(<<K(kC), K(kD)>>, <<VI(3), VI(4)>>)>>) ]
 
